@@ -18,7 +18,9 @@ CHECKS = {
         "mechanism reports every (id, route) incarnation exactly once with the last status / latest tags / first+last "
         "timestamps / chunks in arrival order; every behaviour TLC enumerates is replayed into the real StreamToDict, "
         "StreamSummary and StreamToExtendedDecorator and compared after every call, so the code is shown to follow "
-        "the model on the same space; random longer behaviours come from tlc -simulate.",
+        "the model on the same space; random longer behaviours come from tlc -simulate. Events without a test id, with "
+        "any payload (file name / bytes / mime type / tags / timestamp / route), report nothing in any consumer, also at "
+        "stopTestRun (sr_expXN.cfg, 4423 behaviours for StreamToExtendedDecorator).",
         note="Trusted: TLC, the projection functions in harness/c10.py, the testresult doubles. Bounds: <=2 events "
         "exhaustively over 216-event alphabet, <=3 over a 27-event alphabet with two runs, random to depth 8 per run. "
         "StreamToExtendedDecorator drops 'exists' events by design.",
